@@ -293,10 +293,7 @@ def run(ck, c15, Event, uno, have_driver):
             case = live_case(S, "session")
 
             def shrink(bad, d, S=S, k=k):
-                def judge(st, args):
-                    c = {"kind": "union", "stream": "session", "a": [TX.spec_of(o) for o in args[0]], "b": [TX.spec_of(o) for o in args[1]]}
-                    return R.verdict(c, st["call"]["route"], live=(args[0], args[1]))[1]
-                steps, ok = TX.minimise_session(S.log[:k], Event, TX.generic_call(R.ql), judge, bad.split(":")[0])
+                steps, ok = TX.minimise_session(S.log[:k], "harness.c15_hist", bad.split(":")[0])
                 return bad, TX.session_replay(steps, ok)
             bad = R.call(case, route, live=(S.lists["a"], S.lists["b"]), replay=lambda S=S, k=k: S.replay(k), shrink=shrink)
             S.results.append(R.routes[route].last)
@@ -371,7 +368,20 @@ def replay_main(path):
     return 1 if bad else 0
 
 
+def session_judge(Event):
+    from . import c15
+    ck = common.Check("C15", ["quick"])
+    R = Runner(ck, c15, Event, c15._impl()[1], False)
+
+    def judge(st, args):
+        c = {"kind": "union", "stream": "session", "a": [TX.spec_of(o) for o in args[0]], "b": [TX.spec_of(o) for o in args[1]]}
+        return R.verdict(c, st["call"]["route"], live=(args[0], args[1]))[1]
+    return judge
+
+
 if __name__ == "__main__":
     if len(sys.argv) >= 3 and sys.argv[1] == "replay":
         sys.exit(replay_main(sys.argv[2]))
+    if len(sys.argv) >= 3 and sys.argv[1] == "judge":
+        sys.exit(TX.judge_main(sys.argv[2], session_judge))
     print(__doc__)
